@@ -135,19 +135,19 @@ def run_case(case, ctx):
                 _cmp(ctx, op, c * denote(base[0]), denote(o[0]), f"data scaled by {c}", scale=c)
                 ctx.check(abs(base[2]["fit"] - o[2]["fit"]) <= 1e-8, op, "DIFFERS", f"fit changed under scaling by {c}", what="fit")
         elif rel == "dense-sparse":
-            Xs = X * (rng.random(shape) < 0.7)
-            if case["cseed"] % 3 == 1:
-                # count-like data held in an integer element type (dense and sparse)
-                Xs = np.round(np.abs(Xs) * 6.0).astype([np.int64, np.int32][case["cseed"] % 2])
-                ctx.feat(data_type=str(Xs.dtype))
+            Xf = X * (rng.random(shape) < 0.7)
             M0 = ttb.ktensor([rng.random((s, R)) for s in shape])
-            a = _quiet(ttb.cp_als, ttb.tensor(Xs.copy()), R, init=M0.copy(), printitn=0, **kw)
-            S = gen.mk_sptensor(ttb, Xs, gen.stored_order(rng, int(np.count_nonzero(Xs)), "shuffled"), dtype=(Xs.dtype if Xs.dtype != float else None))
-            b = _quiet(ttb.cp_als, S, R, init=M0.copy(), printitn=0, **kw)
-            _cmp(ctx, op, denote(a[0]), denote(b[0]), "dense vs sparse data")
-            if Xs.dtype != float:
-                c_ = _quiet(ttb.cp_als, ttb.tensor(Xs.astype(float)), R, init=M0.copy(), printitn=0, **kw)
-                _cmp(ctx, op, denote(a[0]), denote(c_[0]), "integer-typed vs float-typed dense data", which="dtype")
+            # float data, and count-like data held in an integer element type (dense and sparse)
+            for Xs in (Xf, np.round(np.abs(Xf) * 6.0).astype([np.int64, np.int32][case["cseed"] % 2])):
+                ctx.feat(data_type=str(Xs.dtype))
+                a = _quiet(ttb.cp_als, ttb.tensor(Xs.copy()), R, init=M0.copy(), printitn=0, **kw)
+                S = gen.mk_sptensor(ttb, Xs, gen.stored_order(rng, int(np.count_nonzero(Xs)), "shuffled"), dtype=(Xs.dtype if Xs.dtype != float else None))
+                b = _quiet(ttb.cp_als, S, R, init=M0.copy(), printitn=0, **kw)
+                _cmp(ctx, op, denote(a[0]), denote(b[0]), "dense vs sparse data")
+                if Xs.dtype != float:
+                    c_ = _quiet(ttb.cp_als, ttb.tensor(Xs.astype(float)), R, init=M0.copy(), printitn=0, **kw)
+                    _cmp(ctx, op, denote(a[0]), denote(c_[0]), "integer-typed vs float-typed dense data", which="dtype")
+            ctx.feat(data_type=None)
         else:
             M0 = ttb.ktensor([rng.random((s, R)) for s in shape])
             do = [1, 2, 0] if N == 3 else [2, 0, 3, 1]
